@@ -1,4 +1,5 @@
 import SqlProofs.IdentShape.Skeletons
+import SqlProofs.IdentShape.Check
 import SqlProofs.GroupTotal
 /-!
 # SqlProofs.IdentShape.Context — from a checked skeleton to the accessors of every re-spelling of it
